@@ -111,6 +111,14 @@ fn scaled(kind: &str, n: usize) -> Vec<u8> {
         "expr-calls" => { s.push_str("<rect wh=\"{{"); for _ in 0..n { s.push_str("abs("); } s.push('1'); for _ in 0..n { s.push(')'); } s.push_str("}} 2\"/>"); }
         // attributes of one scope, each the previous one: evaluated lazily, one level of recursion per link
         "scope-chain" => { s.push_str("<g v0=\"1\""); for i in 1..n { s.push_str(&format!(" v{i}=\"$v{}\"", i - 1)); } s.push_str(&format!("><rect wh=\"{{{{$v{}}}}} 2\"/></g>", n - 1)); }
+        // a chain of k lazily evaluated attributes, each value wrapped in p pairs of parentheses (n = 1000 k + p):
+        // the nesting the guard has to bound is the SUM over the chain, about k * p levels of real recursion
+        "scope-chain-parens" => {
+            let (k, p) = (n / 1000, n % 1000);
+            s.push_str("<g v0=\"1\"");
+            for i in 1..k { s.push_str(&format!(" v{i}=\"{}$v{}{}\"", "(".repeat(p), i - 1, ")".repeat(p))); }
+            s.push_str(&format!("><text xy=\"0 0\" text=\"{{{{$v{}}}}}\"/></g>", k.max(1) - 1));
+        }
         // n nested groups, each holding one resolvable sibling before the next group, a dangling reference
         // innermost: every level retries its failing child once more after its sibling resolved
         "nested-fail" => { for i in 0..n { s.push_str(&format!("<g><rect id=\"r{i}\" wh=\"1\"/>")); } s.push_str("<rect xy=\"#missing|h\" wh=\"1\"/>"); for _ in 0..n { s.push_str("</g>"); } }
@@ -230,9 +238,15 @@ fn frontends_stream(rep: &mut Report, rng: &mut Rng, n: usize) {
     let mut server = Server::start().ok();
     if server.is_none() { rep.notes.push("frontends/robustness: server could not be started".into()); }
     let cfg = FCfg::default();
-    for i in 0..n {
-        let c = match rng.below(3) { 0 => { let b = base_docs(rng); mutate(rng, b) } 1 => attr_soup(rng), _ => random_bytes(rng) };
+    // the constructs that recurse, at and around their limits, through the command and the server (whose
+    // worker threads have 2 MiB stacks): first, before the random sample
+    let deep: Vec<Vec<u8>> = [("expr-parens", 100usize), ("expr-parens", 101), ("expr-minus", 100), ("expr-calls", 100), ("scope-chain", 99), ("scope-chain", 101),
+        ("scope-chain-parens", 40055), ("scope-chain-parens", 50050), ("scope-chain-parens", 70029), ("scope-chain-parens", 30069), ("nesting", 99), ("nesting", 101), ("use-chain", 300), ("reuse-self", 1)]
+        .iter().map(|(k, m)| scaled(k, *m)).collect();
+    for i in 0..n + deep.len() {
+        let c = if i < deep.len() { deep[i].clone() } else { match rng.below(3) { 0 => { let b = base_docs(rng); mutate(rng, b) } 1 => attr_soup(rng), _ => random_bytes(rng) } };
         st.case(&hex(&c[..c.len().min(64)]), true, || json!({"input": shown(&c)}));
+        if i < deep.len() { st.tally("recursion-shape"); }
         let mode = *rng.pick(&[CliMode::FileToStdout, CliMode::StdinToStdout, CliMode::FileToFile, CliMode::StdinToFile]);
         let r = via_cli(&bin, &dir, &format!("c01-{}-{i}", std::process::id()), &c, &cfg, mode, None, Duration::from_secs(20));
         let mut good = true;
@@ -429,7 +443,7 @@ pub fn run(rep: &mut Report, tier: &str, seed: u64) -> Result<(), String> {
     let sizes: &[(&str, &[usize])] = &[
         ("siblings", &[100, 1000, 4000]), ("nesting", &[50, 99, 100, 101, 1000, 20000]), ("chain-forward", &[20, 80, 200]), ("chain-prev", &[100, 1000]),
         ("loop", &[10, 999, 1000, 1001]), ("path", &[100, 10000, 100000]), ("points", &[100, 10000]), ("expr-sum", &[10, 1000, 20000]), ("expr-parens", &[10, 100, 101, 3000, 20000, 100000]), ("expr-minus", &[10, 100, 101, 3000, 20000, 100000]), ("expr-calls", &[10, 101, 3000, 20000]), ("scope-chain", &[10, 100, 102, 2000]), ("nested-fail", &[2, 6, 10, 24, 90]), ("nested-fail-after", &[2, 6, 10, 24, 90]), ("nested-late", &[2, 6, 10, 24, 90]),
-        ("var-chain", &[10, 300]), ("scope-lookup", &[5, 12]), ("use-chain", &[10, 300]), ("reuse-self", &[1]), ("idle-var-ids", &[0, 1, 3]), ("idle-var-ids-behind", &[0, 1, 3]), ("idle-random-ids-behind", &[1, 2, 4]), ("idle-var-ids-first", &[0, 1, 3]), ("idle-random-ids-first", &[1, 2, 4]), ("idle-random-ids", &[1, 2, 4]), ("idle-loop-ids", &[1, 3]), ("text-lines", &[10, 2000]), ("classes", &[10, 2000]),
+        ("var-chain", &[10, 300]), ("scope-chain-parens", &[3002, 40055, 50050, 70029, 9090, 90009]), ("scope-lookup", &[5, 12]), ("use-chain", &[10, 300]), ("reuse-self", &[1]), ("idle-var-ids", &[0, 1, 3]), ("idle-var-ids-behind", &[0, 1, 3]), ("idle-random-ids-behind", &[1, 2, 4]), ("idle-var-ids-first", &[0, 1, 3]), ("idle-random-ids-first", &[1, 2, 4]), ("idle-random-ids", &[1, 2, 4]), ("idle-loop-ids", &[1, 3]), ("text-lines", &[10, 2000]), ("classes", &[10, 2000]),
     ];
     for (k, ns) in sizes {
         for n in ns.iter() {
